@@ -44,7 +44,8 @@ EmbedSteps == {"embedV","embedP","embedV-shadowed","embedP-shadowed"}
 (* named-member steps: the type so far becomes the member of a struct whose JSON member NAME needs care: characters that HTML *)
 (* escaping respells (<, >, &), a multi-byte letter.  The program copies for escaped / unescaped keys and for values reached  *)
 (* through interface{} carry the member names pre-rendered, so the name's spelling is part of the type, not of the value.     *)
-NameSteps == {"struct-named:lt","struct-named:gt","struct-named:amp","struct-named:mixed","struct-named:u2"}
+NameSteps == {"struct-named:lt","struct-named:gt","struct-named:amp","struct-named:mixed","struct-named:u2",
+              "map_p"}     \* map[*int]T: a key type Go does not support (neither string, integer nor TextMarshaler): an error, never a document
 AllSteps == Simple \cup StructSteps \cup EmbedSteps \cup NameSteps
 
 IsStructStep(s) == s \in StructSteps
